@@ -17,19 +17,35 @@
 EXTENDS Integers, Sequences, FiniteSets, TLC, Json
 
 CONSTANTS MaxN, NegLo, Hi, Modes
-VARIABLES n, t, mode      \* t : lower triangle  [<<i,j>> (j <= i) -> value]
-vars == <<n, t, mode>>
+VARIABLES n, t, mode,     \* t : lower triangle  [<<i,j>> (j <= i) -> value]
+          aux             \* mode "sh": [k, share, v];  mode "th": sequence of theta bound classes;  otherwise <<>>
+vars == <<n, t, mode, aux>>
 
 Vals == (0 - NegLo)..Hi
 Tri(k) == {<<i, j>> \in (1..k) \X (1..k) : j <= i}
 Mat == [i \in 1..n |-> [j \in 1..n |-> IF j <= i THEN t[<<i, j>>] ELSE t[<<j, i>>]]]
 
-Init == \/ /\ "psd" \in Modes /\ mode = "psd"
+SdMats(k) == {f \in [Tri(k) -> Vals \cup {4, 9}] :
+                 \A p \in Tri(k) : IF p[1] = p[2] THEN f[p] \in {1, 4, 9} ELSE f[p] \in Vals}
+\* theta bound classes for the unconstrained-parameter (UCP) round trip: lower bound 0, finite interval with a
+\* positive lower bound, negative lower bound, no bounds, fixed
+ThetaClasses == {"lb0", "interval", "neglb", "unbounded", "fixed"}
+ThetaSeqs == {q \in UNION {[1..m -> ThetaClasses] : m \in 1..3} : \E i \in DOMAIN q : q[i] # "fixed"}
+Init == \/ /\ "psd" \in Modes /\ mode = "psd" /\ aux = <<>>
            /\ n \in 1..MaxN /\ t \in [Tri(n) -> Vals]
-        \/ /\ "sd" \in Modes /\ mode = "sd"
+        \/ /\ "sd" \in Modes /\ mode = "sd" /\ aux = <<>>
            /\ n \in 2..MaxN
-           /\ t \in {f \in [Tri(n) -> Vals \cup {4, 9}] :
-                        \A p \in Tri(n) : IF p[1] = p[2] THEN f[p] \in {1, 4, 9} ELSE f[p] \in Vals}
+           /\ t \in SdMats(n)
+        \* shared variance parameters (IOV: one eta per occasion, all with the same omega; or the variance symbol of a
+        \* joint block used again by univariate distributions): a 2x2 block with square variances plus k univariate
+        \* distributions whose variance is ONE parameter - its own (value v) or the first variance of the block
+        \/ /\ "sh" \in Modes /\ mode = "sh"
+           /\ n = 2 /\ t \in SdMats(2)
+           /\ aux \in [k : 1..3, share : {"own", "block"}, v : {1, 4, 9}]
+           /\ (aux.share = "block" => aux.v = t[<<1, 1>>])
+        \/ /\ "th" \in Modes /\ mode = "th"
+           /\ n = 1 /\ t = [p \in Tri(1) |-> 1]
+           /\ aux \in ThetaSeqs
 Next == UNCHANGED vars
 
 \* ---- determinant by Laplace expansion (rows R, columns C: sequences of indices)
@@ -61,16 +77,24 @@ IsPSD == PSDMinors(Mat, n)
 Class == IF ~IsPSD THEN "indef" ELSE IF PDLeading(Mat, n) THEN "pd" ELSE "psd0"
 
 \* the design-level theorem: both definitions agree; pd <=> psd and non-singular
-Agree == /\ IsPSD = PSDElim(Mat, [i \in 1..n |-> i])
+Agree == (mode \in {"psd", "sd", "sh"}) =>
+         /\ IsPSD = PSDElim(Mat, [i \in 1..n |-> i])
          /\ (Class = "pd") = (IsPSD /\ Minor(Mat, 1..n) # 0)
 \* vacuity: both classes occur is checked by the driver on the emitted cases
 
 Flat == LET RECURSIVE Row(_, _)
             Row(i, j) == IF i > n THEN <<>> ELSE IF j > i THEN Row(i + 1, 1) ELSE <<t[<<i, j>>]>> \o Row(i, j + 1)
         IN Row(1, 1)
-Sd(i) == CASE Mat[i][i] = 1 -> 1 [] Mat[i][i] = 4 -> 2 [] Mat[i][i] = 9 -> 3 [] OTHER -> 0
+Root(x) == CASE x = 1 -> 1 [] x = 4 -> 2 [] x = 9 -> 3 [] OTHER -> 0
+Sd(i) == Root(Mat[i][i])
 Emit == /\ mode = "psd" => PrintT(<<"MAT", ToJson([n |-> n, t |-> Flat, cls |-> Class])>>)
         /\ (mode = "sd" /\ IsPSD) =>
              PrintT(<<"SD", ToJson([n |-> n, t |-> Flat, sd |-> [i \in 1..n |-> Sd(i)],
                                     corr |-> [i \in 1..n |-> [j \in 1..n |-> <<Mat[i][j], Sd(i) * Sd(j)>>]]])>>)
+        \* every parameter is converted exactly ONCE, however many distributions use it: sd(shared) = sqrt(v)
+        /\ (mode = "sh" /\ IsPSD) =>
+             PrintT(<<"SH", ToJson([n |-> n, t |-> Flat, sd |-> [i \in 1..n |-> Sd(i)],
+                                    corr |-> [i \in 1..n |-> [j \in 1..n |-> <<Mat[i][j], Sd(i) * Sd(j)>>]],
+                                    k |-> aux.k, share |-> aux.share, v |-> aux.v, sv |-> Root(aux.v)])>>)
+        /\ mode = "th" => PrintT(<<"TH", ToJson([classes |-> aux])>>)
 =============================================================================
